@@ -108,6 +108,36 @@ def run_c10(run_, rng, tier, exe):
                         dict(scenario=describe(scns[i]), inject="%s:error=%s:when=%d" % (name, e, k), call=line,
                              fault_free=dict(exit=r0["exit"], tree=fmt_tree(r0["tree"])),
                              faulty=dict(exit=r["exit"], stderr=r["stderr"].decode("latin-1")[-400:], stdout=r["stdout"].decode("latin-1")[-400:], tree=fmt_tree(r["tree"])))))
+    # aligned injection: the j-th operation of the model's trace is the j-th file-system call of the real run on the scenario
+    # directory (checked by the operation-sequence correspondence); failing exactly that call must give what the model gives
+    # with fault = j: the same exit status and the same tree (theorem fault_is_fatal speaks about this schedule)
+    al_scns = scns[:(19 if q else 120)]
+    al_base = run_many(exe, al_scns, strace=l2.TRACE_CALLS, timeout=30)
+    al_jobs = []
+    for i, (s, r0) in enumerate(zip(al_scns, al_base)):
+        ops, calls = l2.ops_of_trace(r0.get("trace", []), with_calls=True)
+        mops = l2.model_ops(run_model([l2.model_line(s)])[0])
+        if ops != mops:
+            mism.append((i, "operation sequences differ", dict(scenario=describe(s), impl_ops=ops, model_ops=mops)))
+            continue
+        for j, (name, k) in enumerate(calls):
+            al_jobs.append((i, j, name, k))
+    def al_one(jb):
+        i, j, name, k = jb
+        return l2.run_impl(exe, al_scns[i], strace=l2.TRACE_CALLS, inject="%s:error=EIO:when=%d" % (name, k), timeout=30)
+    with concurrent.futures.ThreadPoolExecutor(max_workers=12) as ex:
+        al_res = list(ex.map(al_one, al_jobs))
+    al_model = run_model([l2.model_line(al_scns[i], fault=j) for i, j, name, k in al_jobs])
+    for (i, j, name, k), r, ml in zip(al_jobs, al_res, al_model):
+        run_.count("aligned %d %d" % (i, j), True, "aligned fault at operation %d (%s)" % (min(j, 9), name))
+        mc, _, _ = l2.model_canon(ml)
+        me = re.match(r"EXIT (\d+) TREE (\S+)", mc)
+        ie = re.match(r"EXIT (\d+) TREE (\S+)", l2.impl_line(r))
+        if not me or not ie or me.groups() != ie.groups():
+            mism.append((i, "a failure injected into operation %d (%s #%d): the model and the implementation end differently" % (j, name, k),
+                         dict(scenario=describe(al_scns[i]), inject="%s:error=EIO:when=%d" % (name, k), model=mc[:1500], impl_line=l2.impl_line(r)[:1500],
+                              stderr=r["stderr"].decode("latin-1")[-300:])))
+    run_.cov["aligned_fault_schedules"] = len(al_jobs)
     # the fault-free runs are also compared with the model
     model = run_model([l2.model_line(s) for s in scns])
     for i, (s, r0, ml) in enumerate(zip(scns, base, model)):
@@ -289,6 +319,9 @@ def run_c09(run_, rng, tier, exe):
         if d:
             bad.append((i, d, dict(scenario=describe(s), inject="%s:signal=KILL:when=%d" % (name, k), call=line, tree=fmt_tree(r["tree"]))))
     run_.cov["kill_points"] = len(jobs)
+    # the order of operations (backup before the write, removal of a rename source after it, deferred writes before
+    # deferred removals) is the model's trace order: compared call by call on the scenarios above
+    mism += ops_family(run_, exe, (scns[:40] if q else scns[:400]) + sf[:(30 if q else 300)] + blocked, label="C09 ops")
     return bad, mism
 
 
